@@ -186,7 +186,7 @@ pub fn stub_decode_const(_cp: &CodePage, bytes: &[u8]) -> String {
     if bytes.is_empty() { String::new() } else { String::from("x") }
 }
 
-// @harness name=propval_read_any kind=Bk tier=quick props=C02,C09 bound="any input of 0..=14 bytes (code-page decoding stubbed)" desc="PropertyValue::read on arbitrary bytes never panics: it returns an error for short input, unknown type tags and unterminated strings, and otherwise a value whose type is the one the tag designates (0 Empty, 1 Null, 2 I2, 3 I4, 16 I1, 30 LpStr, 64 FileTime) -- a declared string length larger than the input is an error, not an allocation failure"
+// @harness name=propval_read_any kind=Bk tier=thorough props=C02,C09 bound="any input of 0..=14 bytes (code-page decoding stubbed)" desc="PropertyValue::read on arbitrary bytes never panics: it returns an error for short input, unknown type tags and unterminated strings, and otherwise a value whose type is the one the tag designates (0 Empty, 1 Null, 2 I2, 3 I4, 16 I1, 30 LpStr, 64 FileTime) -- a declared string length larger than the input is an error, not an allocation failure"
 #[kani::proof]
 #[kani::unwind(16)]
 #[kani::stub(alloc::fmt::format, stub_format)]
